@@ -163,7 +163,10 @@ class Check(object):
                 # not a finding by itself: the registered tie is the behavioural correspondence;
                 # the correspondence module directs extra search at the translated functions.
                 # Only this entry's theorems are left out.
-                self.gen_broken = self.gen_status
+                # (the status of the first broken entry, without module prefix: correspondence modules written for a
+                # single tie test it with startswith('proof-broken'); per-entry statuses are in self.gen_entries)
+                if not self.gen_broken:
+                    self.gen_broken = st
                 self.notes.append('translation tie NOT available for the current source (%s); theorems %s are not '
                                   'counted; search escalated' % (st[:300], gen['theorems']))
         # 2. grep audit over the whole lean tree (comments stripped)
@@ -357,7 +360,7 @@ class Check(object):
 
 
 def regenerate(specs):
-    """run the spec's translator (tools/py2lean.py or tools/py2lean_fn.py) for every spec (paths relative to lean/); returns 'ok' or the reason"""
+    """run the spec's translator (tools/py2lean.py, py2lean_fn.py or py2lean_fields.py) for every spec (paths relative to lean/); returns 'ok' or the reason"""
     status = 'ok'
     for sp in specs:
         spec_path = os.path.join(LEAN, sp)
